@@ -933,6 +933,36 @@ func (db *ContractDB) ParseContractFile(fset *token.FileSet, f *ast.File, pkgPat
 			cl.Ord = counts[word]
 			counts[word]++
 			cur.Clauses = append(cur.Clauses, cl)
+		case "sets":
+			// sets G = expr : ghost assignment made when the function returns. For callers it reads as
+			// `modifies G` + `ensures G == (expr)`; for the function itself the ghost takes the value at each return.
+			if cur == nil {
+				return fail(l.no, "sets outside a func contract")
+			}
+			eq := strings.Index(rest, "=")
+			if eq < 0 {
+				return fail(l.no, "sets wants `name = expr`")
+			}
+			gname := strings.TrimSpace(rest[:eq])
+			body := strings.TrimSpace(rest[eq+1:])
+			e, err := ParseExpr(body)
+			if err != nil {
+				return fail(l.no, "%v", err)
+			}
+			cur.Clauses = append(cur.Clauses, &Clause{Kind: "sets", Src: rest, E: e, Line: l.no, File: filename, Site: gname})
+			me, _ := ParseExpr(gname)
+			mc := &Clause{Kind: "modifies", Src: gname, Line: l.no, File: filename, Mods: []Expr{me}}
+			mc.Ord = counts["modifies"]
+			counts["modifies"]++
+			cur.Clauses = append(cur.Clauses, mc)
+			ee, err := ParseExpr(gname + " == (" + body + ")")
+			if err != nil {
+				return fail(l.no, "%v", err)
+			}
+			ec := &Clause{Kind: "ensures", Src: gname + " == (" + body + ")", E: ee, Line: l.no, File: filename}
+			ec.Ord = counts["ensures"]
+			counts["ensures"]++
+			cur.Clauses = append(cur.Clauses, ec)
 		case "requires", "ensures", "invariant", "modifies", "decreases", "hyp", "concl":
 			tags, body := parseTags(rest)
 			cl := &Clause{Kind: word, Tags: tags, Src: body, Line: l.no, File: filename}
